@@ -9,7 +9,7 @@ from ..model import AnalysisError
 from .common import count_form, ob, need, call_name, roles, swap_roles, role_of, lit, is_lit, resolve_ite_free
 from . import common
 from .. import symeval
-from ..constfold import table
+from ..constfold import table, NpArray
 
 PROP = "C11"
 EXPLANATION = (
@@ -237,6 +237,9 @@ def rule_maskincl(ctx):
     # all plain rules carry exactly the X mask, so a stricter plain rule is never masked where a looser one is not
     X = table(ctx, "chord.X_CHORD_ENCODED", "C11.MASKINCL")
     Q = table(ctx, "chord.QUALITIES", "C11.MASKINCL")
+    if isinstance(Q, dict):
+        # the templates may be stored as lists or as arrays of the same numbers
+        Q = dict((k_, v_.data if isinstance(v_, NpArray) else v_) for k_, v_ in Q.items())
     for name in PLAIN:
         f, s, base, stores = model(ctx, name, "C11.MASKINCL")
         masks = [idx for idx, val in stores if is_lit(val) and lit(val) < 0]
